@@ -6,9 +6,9 @@ import common
 
 
 def run():
-    libs = os.pathsep.join(["/verif/spec", "/verif/spec/mc", "/verif/spec/trace"])
+    libs = os.pathsep.join([common.VERIF + "/spec", common.VERIF + "/spec/mc", common.VERIF + "/spec/trace"])
     bad = []
-    for f in sorted(glob.glob("/verif/spec/*.tla") + glob.glob("/verif/spec/mc/*.tla") + glob.glob("/verif/spec/trace/*.tla")):
+    for f in sorted(glob.glob(common.VERIF + "/spec/*.tla") + glob.glob(common.VERIF + "/spec/mc/*.tla") + glob.glob(common.VERIF + "/spec/trace/*.tla")):
         p = subprocess.run(["java", "-cp", "/opt/veriftools/tla/tla2tools.jar:/opt/veriftools/tla/CommunityModules-deps.jar",
                             "-DTLA-Library=" + libs, "tla2sany.SANY", f], cwd=os.path.dirname(f),
                            stdout=subprocess.PIPE, stderr=subprocess.STDOUT, text=True)
